@@ -1,7 +1,7 @@
 #!/bin/bash
 # Re-run every seeded change against the check of the property it breaks (scratch worktree /tmp/mw, VERIF_REPO).
 # usage: tools/seed_regress.sh [name...]      expected: rc=1 for every line (C02-b is judged by C01 and C08)
-W=/tmp/mw
+W=${VERIF_SCRATCH:-/tmp/mw}
 [ -d $W ] || git -C /repo worktree add -q --detach $W HEAD
 names="$@"; [ -z "$names" ] && names=$(ls /verif/seeded | grep -v INDEX)
 fail=0
